@@ -189,6 +189,10 @@ func vfRunOne(path string) string {
 		}()
 		h()
 	}()
+	if vfFSDir != "" {
+		os.RemoveAll(vfFSDir) // the replay's temporary directory
+		vfFSDir = ""
+	}
 	if res == "ok" && len(rp.Obs) > 0 {
 		// compare observation log with what the symbolic engine predicted under its model
 		if len(rp.Obs) != len(vfObsLog) {
